@@ -78,6 +78,20 @@ def rmCmd : List String → String
     | _, _ => "bad-op"
   | _ => "bad-op"
 
+def parseNatList (s : String) : Option (List Nat) :=
+  if s = "-" then some [] else (s.splitOn ",").mapM String.toNat?
+
+def parseOct (s : String) : Option Nat :=
+  s.toList.foldlM (fun acc c => if '0' ≤ c ∧ c ≤ '7' then some (acc * 8 + (c.toNat - 48)) else none) 0
+
+def accessCmd : List String → String
+  | [mode, d, ro, eu, eg, aux, fu, fg, mask] =>
+    match parseOct mode, d.toNat?, ro.toNat?, eu.toNat?, eg.toNat?, parseNatList aux, fu.toNat?, fg.toNat?, mask.toNat? with
+    | some mode, some d, some ro, some eu, some eg, some aux, some fu, some fg, some mask =>
+      toString (accessReply mode (d == 1) (ro == 1) eu eg aux fu fg mask)
+    | _, _, _, _, _, _, _, _, _ => "bad-op"
+  | _ => "bad-op"
+
 structure St where
   dummy : Nat := 0
 
@@ -86,6 +100,7 @@ def step (st : St) (line : String) : St × String :=
   | "xdr" :: args => (st, xdrCmd args)
   | "rpc" :: args => (st, rpcCmd args)
   | "rm" :: args => (st, rmCmd args)
+  | "access" :: args => (st, accessCmd args)
   | ["reset"] => ({}, "ok")
   | _ => (st, "bad-op")
 
